@@ -22,7 +22,7 @@ import numpy as np
 from hypothesis import strategies as st
 
 from vpbt import gfi, gfi_strat, selmodel
-from vpbt.ctx import Violation
+from vpbt.ctx import OutOfDomain, Violation
 
 # ------------------------------------------------------------------------------------------------
 # strategies
@@ -404,7 +404,9 @@ def step_update(s, op, checks, case):
             if not values_equal(got[p], v):
                 raise Violation("update:bwd-value", f"backward constraint holds {got[p]!r} at {p}, previous value was {v!r}", case)
         for p in got:
-            if p not in overwritten:
+            # an address that was hidden (masked off) before and is constrained now has no previous value
+            # in the trace; the library reports the hidden one -- not asserted either way
+            if p not in overwritten and p not in casg:
                 raise Violation("update:bwd-extra", f"backward constraint holds a value at {p} which was not overwritten", case)
     if "retdiff" in checks:
         check_retdiff(retdiff, info["old_retval"], new_tr.get_retval(), "update:", case)
@@ -479,6 +481,8 @@ def step_bwd(s, op, checks, case):
         tr2, w2, retdiff2, _bwd2 = info["bwd_req"].edit(k, s.tr, argdiffs)
         # restored: choices, score, retval equal the originals
         run_back, fresh = gfi.check_trace_against_model(tr2, s.node, info["old_nargs"], info["old_asg"], "bwd:", case, Violation, allow_fresh=False)
+    except OutOfDomain:
+        raise
     except Violation as v:
         if nonzero_branch:
             raise Violation("switch_backward_is_branch0", "backward request does not restore the trace of a program that executes a switch branch != 0: " + v.message, case)
@@ -630,7 +634,7 @@ def step_assess_agree(s, case):
     try:
         sc, rv = s.gf.assess(tr.get_choices(), tr.get_args())
     except Exception as e:
-        if type(e).__name__ == "MissingAddress" and gfi.has_empty_site(s.node, s.run):
+        if type(e).__name__ == "MissingAddress" and gfi.has_empty_site(s.node, s.run, include_branches=False):
             raise Violation("assess_empty_sample", f"assess raised MissingAddress{e.args} on the trace's own choices (a call site without active choices)", case)
         raise
     atol = gfi.score_tol(s.run)
